@@ -41,6 +41,9 @@ pub struct IoCall {
     pub verdict: IoVerdict,
 }
 
+/// descriptor calls one run may make while no scenario-specific cap is set
+pub const DEFAULT_IO_CALL_CAP: usize = 20_000;
+
 #[derive(Default)]
 pub struct SysModel {
     pub maps: Vec<Mapping>,
@@ -299,10 +302,9 @@ pub unsafe fn hook_read(fd: libc::c_int, buf: *mut libc::c_void, count: libc::si
             return -1;
         }
     }
-    if let Some(cap) = c.sys.io_call_cap {
-        if c.sys.io_log.len() >= cap {
-            std::panic::panic_any(crate::sim::SimPanic::Budget);
-        }
+    // every operation has a budget of descriptor calls (the default bounds any retry loop)
+    if c.sys.io_log.len() >= c.sys.io_call_cap.unwrap_or(DEFAULT_IO_CALL_CAP) {
+        std::panic::panic_any(crate::sim::SimPanic::Budget);
     }
     let v = next_verdict();
     let (ret, e) = match v {
@@ -355,10 +357,9 @@ pub unsafe fn hook_write(fd: libc::c_int, buf: *const libc::c_void, count: libc:
             return -1;
         }
     }
-    if let Some(cap) = c.sys.io_call_cap {
-        if c.sys.io_log.len() >= cap {
-            std::panic::panic_any(crate::sim::SimPanic::Budget);
-        }
+    // every operation has a budget of descriptor calls (the default bounds any retry loop)
+    if c.sys.io_log.len() >= c.sys.io_call_cap.unwrap_or(DEFAULT_IO_CALL_CAP) {
+        std::panic::panic_any(crate::sim::SimPanic::Budget);
     }
     let v = next_verdict();
     let emulated = fd == 1 && c.sys.stdout_capture.is_some();
